@@ -103,7 +103,7 @@ def build_pool(cs, ctx):
     # ---- ensembles for several (n, m)
     for j in range(cs.between("nens", 4, 7)):
         n = [0, 1, 2, 3, 17, 64][cs.draw(f"e{j}.n", 6)]
-        m = [1, 2, 3, 10, 50, 200, 1000][cs.draw(f"e{j}.m", 7)]
+        m = [1, 2, 3, 10, 50, 200, 1000, 0][cs.draw(f"e{j}.m", 8)]
         cls = VALUE_CLASSES[cs.draw(f"e{j}.cls", len(VALUE_CLASSES))]
         e = fill_values(rs, n * m, cls).reshape(n, m)
         if cs.flip(f"e{j}.ties", 30):
